@@ -7,6 +7,7 @@ import (
 	"encoding/hex"
 	"fmt"
 	"io"
+	"math/big"
 	"net"
 	"strings"
 	"sync"
@@ -253,7 +254,17 @@ func c27ClassesRun(in c27ClassIn) (V, Verdict) {
 	if verdict.OK && nshort > 0 {
 		verdict.Class += "/short-rtcp-like"
 	}
-	return VHex(codes), verdict
+	// observation: run-length encoding of the 256 codes
+	rle := VL{}
+	for i := 0; i < 256; {
+		j := i
+		for j < 256 && codes[j] == codes[i] {
+			j++
+		}
+		rle = append(rle, VL{VZ(int64(codes[i])), VZ(int64(j - i))})
+		i = j
+	}
+	return rle, verdict
 }
 
 // ---------- suite "order" ----------
@@ -299,10 +310,7 @@ func c27OrderRun(in c27OrderIn) (V, Verdict) {
 	}
 	m = mux.NewMux(mux.Config{Conn: conn, BufferSize: 1500, LoggerFactory: c27Logger()})
 	if n > 0 { // the reader goroutine runs to its first yield point
-		deadline := time.Now().Add(5 * time.Second)
-		for !strings.HasPrefix(s.Status(rd), "parked") && time.Now().Before(deadline) {
-			time.Sleep(20 * time.Microsecond)
-		}
+		waitParked(s, rd, 5*time.Second)
 	}
 
 	// the schedule, completed the same way in every case (Check/C27.v full_schedule)
@@ -333,7 +341,8 @@ func c27OrderRun(in c27OrderIn) (V, Verdict) {
 	flushedTo := make([]bool, k+1)
 
 	verdict := Pass("", false)
-	flags := make(VL, 0, len(sched))
+	flags := new(big.Int) // bit i = the i-th choice was enabled
+	step := 0
 	for _, t := range sched {
 		pre := ""
 		if t == 0 {
@@ -343,12 +352,15 @@ func c27OrderRun(in c27OrderIn) (V, Verdict) {
 		if t > 0 {
 			tid = t // participants were added in order after the reader: ids 1..k+1
 		}
-		st := s.Step(tid)
+		st := stepPatient(s, tid, 3*time.Second) // no thread of this model ever blocks
 		if st == "running" && verdict.OK {
 			verdict = Fail("thread-blocked-unexpectedly", fmt.Sprintf("thread %d did not reach a yield point; trace %v", t, s.Trace))
 		}
 		enabled := st != "disabled"
-		flags = append(flags, VB(enabled))
+		if enabled {
+			flags.SetBit(flags, step, 1)
+		}
+		step++
 		if !enabled {
 			continue
 		}
@@ -419,8 +431,13 @@ func c27OrderRun(in c27OrderIn) (V, Verdict) {
 		verdict.NonTrivial = queuedThenCreated && laterAfterQueued
 		verdict.Class = fmt.Sprintf("n%d/k%d/queued=%v/later=%v/cap=%v", min(n/4*4, 20), k, queuedThenCreated, laterAfterQueued, capHit)
 	}
-	return VL{flags, obs}, verdict
+	return VL{c27BigZ(flags.String()), obs}, verdict
 }
+
+// an integer observation wider than 64 bits
+type c27BigZ string
+
+func (z c27BigZ) Coq() string { return "VZ " + string(z) }
 
 func c27SameMultiset(a, b [][]byte) bool {
 	if len(a) != len(b) {
